@@ -71,6 +71,12 @@ func main() {
 	switch suite {
 	case "clock":
 		runClockSuite(*seed, *n, out, stats)
+	case "accept":
+		runAcceptSuite(*seed, *n, out, stats)
+	case "decay":
+		runDecaySuite(*seed, *n, out, stats)
+	case "catchup":
+		runCatchupSuite(*seed, *n, out, stats)
 	case "chain":
 		runChainSuite(*seed, *n, *steps, *mode, out, stats)
 	default:
